@@ -37,6 +37,9 @@ type throwEvent struct {
 	awaitingActions []chan IAction
 	once            sync.Once
 	satisfier       *logic.ThrowEventSatisfier
+	// running is set once the node's goroutine drains mch; until then nobody
+	// listens and events are dropped instead of piling up in the inbox
+	running atomic.Bool
 }
 
 func newThrowEvent(wr *wiring, element *schema.ThrowEvent, idGenerator id.IGenerator) (evt *throwEvent, err error) {
@@ -88,6 +91,11 @@ func (evt *throwEvent) run(ctx context.Context, sender tracing.ISenderHandle) {
 }
 
 func (evt *throwEvent) ConsumeEvent(ev event.IEvent) (result event.ConsumptionResult, err error) {
+	if !evt.running.Load() {
+		// not reached yet: nothing listens here, and nothing would drain the inbox
+		result = event.Consumed
+		return
+	}
 	evt.mch <- eventMessage{event: ev}
 	result = event.Consumed
 	return
@@ -102,6 +110,7 @@ func (evt *throwEvent) flow(ctx context.Context) {
 func (evt *throwEvent) Trigger(ctx context.Context) {
 	evt.once.Do(func() {
 		sender := evt.tracer.RegisterSender()
+		evt.running.Store(true)
 		go evt.run(ctx, sender)
 	})
 
@@ -111,6 +120,7 @@ func (evt *throwEvent) Trigger(ctx context.Context) {
 func (evt *throwEvent) NextAction(ctx context.Context, flow Flow) chan IAction {
 	evt.once.Do(func() {
 		sender := evt.tracer.RegisterSender()
+		evt.running.Store(true)
 		go evt.run(ctx, sender)
 	})
 
